@@ -55,8 +55,19 @@ class WrapSys:
         env = adapter.build(cfg)
         self.env = env
         self.dtype = env.action_spec.dtype
-        self.ref_step = jax.jit(env.step)
-        self.ref_reset = jax.jit(env.reset)
+        self.mode = "C13"  # set by the task (C13 / C14): the property a raise of the unwrapped env is reported under
+
+        def answered(fn: Any, what: str) -> Any:
+            def g(*args: Any) -> Any:
+                try:
+                    return fn(*args)
+                except Exception as e:  # noqa: BLE001  (a well-formed request to the *unwrapped* environment)
+                    raise Violation(self.mode, adapter.name, "execution", "request_raised:" + type(e).__name__,
+                                    f"the unwrapped environment's {what} raised {type(e).__name__}: {str(e)[:300]}")
+            return g
+
+        self.ref_step = answered(jax.jit(env.step), "step")
+        self.ref_reset = answered(jax.jit(env.reset), "reset")
         self.W = AutoResetWrapper(env, next_obs_in_extras=flag)
         self.VW = VmapWrapper(env)
         self.VAR = VmapAutoResetWrapper(env, next_obs_in_extras=flag)
@@ -88,11 +99,11 @@ def choose_action(ws: WrapSys, s_np: Any, ts_np: Any, rng: np.random.Generator, 
     drive = bool(ws.cfg.get("drive"))  # configurations in which clients play to win (episodes end by completion, repeatedly)
     if ad.mask_mode is None:
         if kill or drive:
-            a = ad.policy_complete(s_np, env, rng, None)
+            a = ad.safe_policy("complete", s_np, env, rng, None)
             if a is not None:
                 return a
         if not kill:
-            a = ad.policy_survive(s_np, env, rng, None)
+            a = ad.safe_policy("survive", s_np, env, rng, None)
             if a is not None and rng.random() < 0.5:
                 return a
         return ad.inspec_action(env, rng)
@@ -103,7 +114,7 @@ def choose_action(ws: WrapSys, s_np: Any, ts_np: Any, rng: np.random.Generator, 
         return ad.inspec_action(env, rng)
     legal = lo if lo.any() else hi
     if drive and rng.random() < 0.97:
-        a = ad.policy_complete(s_np, env, rng, legal)
+        a = ad.safe_policy("complete", s_np, env, rng, legal)
         if a is not None:
             return a
     if kill:
@@ -114,14 +125,14 @@ def choose_action(ws: WrapSys, s_np: Any, ts_np: Any, rng: np.random.Generator, 
                 mix = np.where(bad.any(axis=1, keepdims=True), bad, legal)
                 return ad.pick(mix, rng)[0]
             return ad.pick(bad, rng)[0]
-        a = ad.policy_complete(s_np, env, rng, legal)
+        a = ad.safe_policy("complete", s_np, env, rng, legal)
         if a is not None:
             return a
     r = rng.random()
     if r < 0.15:
         return ad.inspec_action(env, rng)
     if r < 0.35:
-        a = ad.policy_survive(s_np, env, rng, legal)
+        a = ad.safe_policy("survive", s_np, env, rng, legal)
         if a is not None:
             return a
     return ad.pick(legal, rng)[0]
@@ -563,6 +574,7 @@ def run_task(prop: Any, task: Dict[str, Any]) -> Dict[str, Any]:
 
     task["flag"] = flag
     ws = construct(WrapSys, adapter, cfg, flag, scan_len=task.get("scan_len", 3))
+    ws.mode = mode
     stats = Stats()
     digests: List[int] = []
     nontrivial: List[bool] = []
@@ -650,6 +662,7 @@ def replay(prop: Any, v: Dict[str, Any], path: str) -> int:
     from jsim.core import construct
 
     ws = construct(WrapSys, adapter, v["config"], bool(v.get("flag", False)), int(v.get("scan_len", 3)))
+    ws.mode = prop.id
     if v.get("construction_only"):
         return 0
     try:
